@@ -292,7 +292,8 @@ fn deserialize<'a>(ty: &OwnedDataModelType, data: &'a [u8]) -> Result<(Value, &'
                 }
             }
         }
-        OwnedDataModelType::Schema => todo!(),
+        // no JSON form for an embedded schema is defined yet: refuse instead of panicking
+        OwnedDataModelType::Schema => Err(Error::ShouldSupportButDont),
     }
 }
 
